@@ -37,8 +37,8 @@ ASSUMPTIONS = [
     "reference; beyond that bound nothing is claimed",
 ]
 BOUNDS = {
-    "quick": "19 cover prefixes x 12 suffixes x 1 symbolic character (all of the alphabet at once)",
-    "thorough": "19 cover prefixes x 12 suffixes x 2 symbolic characters, plus every text of <= 4 symbolic characters from the initial state",
+    "quick": "20 cover prefixes x 12 suffixes x 1 symbolic character (all of the alphabet at once)",
+    "thorough": "20 cover prefixes x 12 suffixes x 2 symbolic characters, plus every text of <= 4 symbolic characters from the initial state",
 }
 EXPLANATION = (
     "For every (access text of a reference lexical state, characterising suffix) pair the text prefix + m symbolic characters + "
@@ -72,6 +72,7 @@ COVER = [
     ("after-comment-blank", "/**/"),
     ("directive-string", '#i "'),
     ("directive-block", "#d /*\n"),
+    ("bom", "\ufeff"),  # a UTF-8 byte-order mark (decoded) in front of the first line
 ]
 SUFFIX = [
     ("nl", "\nb\n"),
